@@ -200,6 +200,64 @@ class HashEnvironment(Target):
         return [('environment-hash-is-independent-of-insertion-order', ok)]
 
 
+class DslComponentNames(Target):
+    """'the same component names ... in every process': the names namespace_to_flowir gives to the flattened steps are a
+    function of the ORDERED list of step names -- the first step with a name keeps it, the k-th further one gets the
+    suffix -<numeral(k)> -- so they depend neither on hashes nor on anything but the document order; steps that share a
+    name still end up with different component names."""
+    prop = 'C15'
+    name = 'namespace_to_flowir[component names]'
+    file = DSL
+    qualname = 'namespace_to_flowir'
+    slice = ('component_names: typing.Dict[str, int] = {}', 'complete = experiment.model.frontends.flowir.FlowIRConcrete(', False)
+    pure = ('number_to_roman_like_numeral',)
+    compare_return = False
+    trusted = ["number_to_roman_like_numeral is injective on 1.. (native)", "re fullmatch of SignatureNamePattern on concrete names"]
+    assumptions = ["<= 4 flattened steps with names from ['simulate', 'stage1.analyse', 'simulate', 'simulate'] in every order"]
+
+    def setup(self, c):
+        import collections
+        pool = ['simulate', 'stage1.analyse', 'simulate', 'simulate']
+        n = 1 + c.choice('steps', 4)
+        order = list(itertools.permutations(range(4)))[c.choice('order', 24)][:n]
+        steps = [pool[i] for i in order]
+        comps = collections.OrderedDict()
+        objs = []
+        import experiment.model.frontends.dsl as dsl_mod
+        for k, nm in enumerate(steps):
+            o = Obj('digested%d' % k, step_name=nm, flowir={},
+                    scope=Obj('scope', template=Obj('template', _cls=dsl_mod.Component), location=['entry', 'step%d' % k]))
+            comps[('entry', 'step%d' % k)] = o
+            objs.append(o)
+        return State(kwargs={'components': comps}, steps=steps, objs=objs)
+
+    def externs(self, c, st):
+        import experiment.model.frontends.dsl as dsl_mod
+        return {}
+
+    def ensures(self, c, st, out):
+        if out.kind == 'raise':
+            return [('no-exception', False)]
+        import experiment.model.frontends.dsl as dsl_mod
+        seen = {}
+        want = []
+        for nm in st.steps:
+            if nm not in seen:
+                seen[nm] = 0
+                full = nm
+            else:
+                seen[nm] += 1
+                full = '%s-%s' % (nm, dsl_mod.number_to_roman_like_numeral(seen[nm]))
+            stage, _, name = full.rpartition('.')
+            want.append((int(stage[5:]) if stage else 0, name))
+        got = [(o.flowir.get('stage'), o.flowir.get('name')) for o in st.objs]
+        return [('names-follow-the-document-order-rule', got == want),
+                ('steps-that-share-a-name-get-different-component-names', len(set(got)) == len(got))]
+
+    def cross_compare(self, *a):
+        return []
+
+
 class UnorderedInventory:
     """inventory (reported, not an obligation) of iterations over set()/os.listdir/glob results in the anchored files"""
     name = 'unordered-iteration-inventory'
@@ -336,6 +394,6 @@ class EnvironmentsAreAFunctionOfTheMaps(_c17.EnvironmentWithName):
 
 
 TARGETS = [VariableFilesOrder(), VariableFilesOrderParametrize(), LayerFold(), HashSerialisation(), HashEnvironment(),
-           ReadUserVariables(), LayerFoldFrame(), EnvironmentsAreAFunctionOfTheMaps()]
+           ReadUserVariables(), LayerFoldFrame(), EnvironmentsAreAFunctionOfTheMaps(), DslComponentNames()]
 LEMMAS = []
 BOUNDED = [UnorderedInventory()]
